@@ -31,6 +31,11 @@ func (p PtrPtrSet) Add(ptr1, ptr2 interface{}) {
 		p[ptrOf(ptr1)][ptrOf(ptr2)] = null
 	}
 }
+func (p PtrPtrSet) Remove(ptr1, ptr2 interface{}) {
+	if p[ptrOf(ptr1)] != nil {
+		delete(p[ptrOf(ptr1)], ptrOf(ptr2))
+	}
+}
 func (p PtrPtrSet) Contains(ptr1, ptr2 interface{}) bool {
 	if p[ptrOf(ptr1)] == nil {
 		return false
